@@ -7,6 +7,7 @@ from props import shellcommon as sc
 from sim.scenarios import Pair, HANDSHAKE, scripted
 from sim.trace import Recorder
 from sim.world import LoopEscape
+from props import hdl
 from vlib import core
 from vlib.core import Failure
 
@@ -212,7 +213,7 @@ def correspond(ctx):
         fails.append(Failure('correspondence', 'transitions:model-vs-code',
                              f'observed {cases[gi][0]} -> {cases[gi][1]}; model/spec says {model_out[-120:]}',
                              {'case': cases[gi][0], 'impl': cases[gi][1]}))
-    return fails
+    return fails + hdl.tie(ctx)
 
 
 def oracle(ctx, deep):
@@ -284,7 +285,7 @@ CHECK = core.Check(
          'random schedules beyond that depth with and without loss/duplication, each followed by a lossless drain and '
          'timer sweeps; non-trivial = at least two scheduling choices; the correspondence cases are the distinct state '
          'transitions and collision answers observed',
-    trusted_base=sc.TRUSTED + ['py/props/ikefacts.py StateAbsInt: abstract interpretation of self.state through the '
+    trusted_base=sc.TRUSTED + hdl.TRUSTED + ['py/props/ikefacts.py StateAbsInt: abstract interpretation of self.state through the '
                                'methods of IkeSa (over-approximates the transitions of the code)'],
     assumptions=['the convergence clause is NOT a theorem: it is explored on the real code to the depth and number of '
                  'schedules reported in coverage.exhaustive_depth / schedules_enumerated (the property itself is bounded '
